@@ -343,6 +343,8 @@ func init() {
 		ini := c.Func("mcp", "ServerSession", "initialize")
 		fsv := c.Func("mcp", "", "filterSupportedVersions")
 		sconn := c.Func("mcp", "Server", "Connect")
+		hwrite := c.Func("mcp", "streamableClientConn", "Write")
+		hcheck := c.Func("mcp", "streamableClientConn", "checkResponse")
 		facts := map[string]string{
 			"client.default_version":     findStmt(c, conn, "assign", "protocolVersion :=", "latestProtocolVersion"),
 			"client.explicit_version":    findStmt(c, conn, "if", "opts.ProtocolVersion"),
@@ -368,5 +370,15 @@ func init() {
 			"server.initialize_filter":   findStmt(c, ini, "assign", "legacyVersionFor(") + " | " + findStmt(c, ini, "if", "version == \"\""),
 		}
 		c.Fact("negotiate.flow", facts)
+		// the streamable CLIENT transport against a peer that answers server/discover with an HTTP error:
+		// every such answer reaches Client.Connect as a per-call rejection (the connection survives and the
+		// initialize fallback runs on it) — the model's `DiscResp.unavailable` class rests on these statements
+		c.Fact("negotiate.httpclient", map[string]string{
+			"write.discover_rejected":  findStmt(c, hwrite, "if", "requestMethod == methodDiscover"),
+			"check.transient":          findStmt(c, hcheck, "if", "isTransientHTTPStatus"),
+			"check.decode_error_body":  findStmt(c, hcheck, "if", "noprotocolerrorbody"),
+			"check.error_body_is_call": findStmt(c, hcheck, "if", "response.Error != nil"),
+			"check.not_found":          findStmt(c, hcheck, "if", "StatusNotFound"),
+		})
 	})
 }
